@@ -29,10 +29,10 @@ type thread struct {
 	parked bool
 	done   bool
 	// pending operation
-	lock  *vsync.State
-	write bool
-	site  string
-	spawn int // children spawned (for deterministic labels)
+	lock   *vsync.State
+	write  bool
+	site   string
+	spawn  int  // children spawned (for deterministic labels)
 	helper bool // spawned by instrumented code, not by the harness
 }
 
@@ -48,9 +48,11 @@ type S struct {
 	MaxSteps int
 	// Clock lets sleeping goroutines run when nothing else can: the
 	// scheduler advances virtual time by this much (0 = never).
-	Clock time.Duration
+	Clock     time.Duration
 	lockNames map[*vsync.State]string
 	aborted   bool
+	// ReleasePoints makes lock releases scheduling points as well.
+	ReleasePoints bool
 	// Panics holds panics raised by threads (reported by the harness).
 	Panics []string
 }
@@ -192,8 +194,16 @@ func (s *S) Acquire(l *vsync.State, write bool, site string) {
 	s.park(t, l, write, site)
 }
 
-// Released implements vsync.Scheduler.
-func (s *S) Released(*vsync.State, bool) {}
+// Released implements vsync.Scheduler: releasing a lock is a scheduling point
+// too (always enabled), so that the window between a release and the code
+// that follows it - where stale snapshots are used - can be interleaved.
+func (s *S) Released(*vsync.State, bool) {
+	if !s.ReleasePoints {
+		return
+	}
+	t := s.self()
+	s.park(t, nil, false, "unlock")
+}
 
 // Point is an explicit scheduling point (always enabled).
 func (s *S) Point(site string) {
